@@ -1,6 +1,9 @@
-"""Runner of check C07 (fresh interpreter): see c07_exec.py."""
+"""Runner of check C07 (fresh interpreter): see c07_exec.py (shared executor) and c07_ext_run.py (C07-only
+extensions: constructors with per-site dtypes, Schmidt values / entropies at all bond indices)."""
 import sys
 import c07_exec
+import c07_ext_run
 
 if __name__ == '__main__':
+    c07_ext_run.install(c07_exec)
     c07_exec.main(sys.argv)
